@@ -339,7 +339,14 @@ impl Check {
                         // iterative DFS over the remaining depth
                         dfs(scn, n, depth, &mut path, &mut |p: &[usize]| {
                             *slots[w].lock().unwrap() = Some((p.to_vec(), Instant::now()));
-                            let r = scn.run(p, false);
+                            // a panic of the *engine* (model, driver) is a machinery failure, never a verdict
+                            let r = match std::panic::catch_unwind(std::panic::AssertUnwindSafe(|| scn.run(p, false))) {
+                                Ok(r) => r,
+                                Err(_) => {
+                                    eprintln!("MACHINERY-ERROR: the engine panicked in scenario {} path {:?}", name, p);
+                                    std::process::exit(2);
+                                }
+                            };
                             *slots[w].lock().unwrap() = None;
                             counter += 1;
                             if counter % 64 == 0 {
@@ -492,7 +499,13 @@ impl Check {
                         }
                         for i in base..(base + BATCH).min(total) {
                             *slots[w].lock().unwrap() = Some((i, Instant::now()));
-                            let r = space.run(i, false);
+                            let r = match std::panic::catch_unwind(std::panic::AssertUnwindSafe(|| space.run(i, false))) {
+                                Ok(r) => r,
+                                Err(_) => {
+                                    eprintln!("MACHINERY-ERROR: the engine panicked in case {} #{}", name, i);
+                                    std::process::exit(2);
+                                }
+                            };
                             *slots[w].lock().unwrap() = None;
                             if i % 64 == 0 {
                                 let r2 = space.run(i, false);
